@@ -134,13 +134,18 @@ def records(fd, arbid, ext):
                 out["sig"][r[7]]["csv_len"] = int(r[9])
                 out["frame"]["csv"] = [r[0].strip()]
     # canard json
-    js = json.loads(export(db, "json", jsonExportCanard=True).decode())
-    msg = js["messages"][0]
-    out["frame"]["canard"] = [msg["id"]]
-    for k, v in msg["signals"].items():
-        if v["name"] in out["sig"]:
-            out["sig"][v["name"]]["canard"] = [int(k), v["bit_length"]]
-            out["sig"][v["name"]]["canard_scale"] = [v["factor"], v["offset"]]
+    # (the Canard key is the position of the least significant bit whatever the Motorola notation option of the other JSON flavours says)
+    for fmt in ("lsb", "msb", "msbreverse"):
+        js = json.loads(export(db, "json", jsonExportCanard=True, jsonMotorolaBitFormat=fmt).decode())
+        msg = js["messages"][0]
+        out["frame"]["canard"] = [msg["id"]]
+        for k, v in msg["signals"].items():
+            if v["name"] in out["sig"]:
+                rec = [int(k), v["bit_length"]]
+                if fmt != "lsb" and out["sig"][v["name"]].get("canard") == rec:
+                    continue            # same as with the default option; a differing record replaces it and fails the comparison
+                out["sig"][v["name"]]["canard"] = rec
+                out["sig"][v["name"]]["canard_scale"] = [v["factor"], v["offset"]]
     if len(_cache) > 64:
         _cache.clear()
     _cache[key] = out
